@@ -1,60 +1,160 @@
-"""Worker-subprocess pool with a per-case wall-clock limit (DESIGN 1.2): well-formed inputs exist on
-which the code under test does not return, so every real-code call is made under an alarm."""
+"""Worker-subprocess pool with a hard per-case wall-clock limit (DESIGN 1.2).
+
+Well-formed inputs exist on which the code under test does not return, some of them inside C
+extension calls where no Python signal handler runs - so a case that exceeds its limit is dealt
+with by killing its worker process; the case is reported as {"_timeout": True}.
+"""
 from __future__ import annotations
 
 import multiprocessing as mp
 import os
-import signal
+import time
 import traceback
+from multiprocessing.connection import wait
 
 
 class CaseTimeout(BaseException):
     pass
 
 
-def _alarm(signum, frame):
-    raise CaseTimeout()
-
-
-def call_with_timeout(fn, arg, limit: float):
-    signal.signal(signal.SIGALRM, _alarm)
-    signal.setitimer(signal.ITIMER_REAL, limit)
-    try:
-        return fn(arg)
-    except CaseTimeout:
-        return {"_timeout": True}
-    except RecursionError:
-        return {"_error": "RecursionError in harness/code under test"}
-    finally:
-        signal.setitimer(signal.ITIMER_REAL, 0)
-
-
-def _run_chunk(args):
-    fn, chunk, limit = args
+def _worker(conn, fn):
     import logging
     import warnings
     logging.disable(logging.CRITICAL)
     warnings.simplefilter("ignore")
-    out = []
-    for a in chunk:
+    while True:
         try:
-            out.append(call_with_timeout(fn, a, limit))
-        except Exception:  # harness bug: surface it
-            out.append({"_error": traceback.format_exc()})
-    return out
+            msg = conn.recv()
+        except EOFError:
+            return
+        if msg is None:
+            return
+        idx, batch = msg
+        for k, arg in enumerate(batch):
+            try:
+                res = fn(arg)
+            except RecursionError:
+                res = {"_error": "RecursionError in harness/code under test"}
+            except Exception:
+                res = {"_error": traceback.format_exc()}
+            conn.send((idx + k, res))
+        conn.send(("batch-done", idx))
 
 
-def pmap(fn, items: list, limit: float = 20.0, workers: int | None = None, chunk: int = 16) -> list:
-    """Order-preserving parallel map.  fn must be a module-level function returning a dict."""
+class _W:
+    def __init__(self, ctx, fn):
+        self.parent, child = ctx.Pipe()
+        self.proc = ctx.Process(target=_worker, args=(child, fn), daemon=True)
+        self.proc.start()
+        child.close()
+        self.batch = None      # (start index, n)
+        self.done_in_batch = 0
+        self.t_item = 0.0
+
+    def kill(self):
+        try:
+            self.proc.kill()
+            self.proc.join(1)
+        except Exception:
+            pass
+        try:
+            self.parent.close()
+        except Exception:
+            pass
+
+
+def pmap(fn, items: list, limit: float = 20.0, workers: int | None = None, chunk: int = 8) -> list:
+    """Order-preserving parallel map with a hard per-item limit.  fn: module-level, returns a dict."""
+    n = len(items)
+    if n == 0:
+        return []
     if workers is None:
         workers = min(16, os.cpu_count() or 4)
-    if len(items) <= chunk or workers <= 1:
-        return _run_chunk((fn, items, limit))
-    chunks = [items[i:i + chunk] for i in range(0, len(items), chunk)]
+    workers = max(1, min(workers, (n + chunk - 1) // chunk))
     ctx = mp.get_context("fork")
-    with ctx.Pool(workers, maxtasksperchild=200) as pool:
-        res = pool.map(_run_chunk, [(fn, c, limit) for c in chunks], chunksize=1)
-    out = []
-    for r in res:
-        out.extend(r)
-    return out
+    results: list = [None] * n
+    next_i = 0
+    ws = [_W(ctx, fn) for _ in range(workers)]
+    remaining = n
+
+    def feed(w: _W):
+        nonlocal next_i
+        if next_i >= n:
+            w.batch = None
+            return
+        size = min(chunk, n - next_i)
+        w.batch = (next_i, size)
+        w.done_in_batch = 0
+        w.t_item = time.time()
+        w.parent.send((next_i, items[next_i:next_i + size]))
+        next_i += size
+
+    for w in ws:
+        feed(w)
+    try:
+        while remaining > 0:
+            active = [w for w in ws if w.batch is not None]
+            if not active:
+                break
+            ready = wait([w.parent for w in active], timeout=0.5)
+            now = time.time()
+            for w in active:
+                if w.parent in ready:
+                    try:
+                        while w.parent.poll():
+                            tag, val = w.parent.recv()
+                            if tag == "batch-done":
+                                feed(w)
+                                break
+                            results[tag] = val
+                            remaining -= 1
+                            w.done_in_batch += 1
+                            w.t_item = time.time()
+                    except (EOFError, OSError):
+                        # worker died (crash in C code): the item it was on is lost
+                        start, size = w.batch
+                        bad = start + w.done_in_batch
+                        if bad < start + size and results[bad] is None:
+                            results[bad] = {"_error": "worker process died on this case"}
+                            remaining -= 1
+                        rest = (bad + 1, start + size - bad - 1)
+                        w.kill()
+                        nw = _W(ctx, fn)
+                        ws[ws.index(w)] = nw
+                        _resume(nw, rest, items)
+                        if nw.batch is None:
+                            feed(nw)
+                elif w.batch is not None and now - w.t_item > limit:
+                    start, size = w.batch
+                    bad = start + w.done_in_batch
+                    w.kill()
+                    if bad < start + size and results[bad] is None:
+                        results[bad] = {"_timeout": True}
+                        remaining -= 1
+                    nw = _W(ctx, fn)
+                    ws[ws.index(w)] = nw
+                    _resume(nw, (bad + 1, start + size - bad - 1), items)
+                    if nw.batch is None:
+                        feed(nw)
+    finally:
+        for w in ws:
+            try:
+                w.parent.send(None)
+            except Exception:
+                pass
+            w.kill()
+    for i in range(n):
+        if results[i] is None:
+            results[i] = {"_error": "no result (pool bookkeeping)"}
+    return results
+
+
+def _resume(w: _W, rest: tuple[int, int], items: list):
+    start, size = rest
+    if size <= 0:
+        w.batch = None
+        return
+    w.batch = (start, size)
+    w.done_in_batch = 0
+    w.t_item = time.time()
+    w.parent.send((start, items[start:start + size]))
